@@ -191,17 +191,23 @@ class Executor:
             return v
         if z3.is_int_value(v):
             return v.as_long()
-        s = z3.Solver()
-        s.set("rlimit", 400_000)
-        s.add(*self.pc)
-        s.add(*self.facts)
-        if s.check() != z3.sat:
-            return None
-        c = s.model().eval(v, model_completion=True)
-        if not z3.is_int_value(c) or not (-limit <= c.as_long() <= limit):
-            return None
-        s.add(v != c)
-        return c.as_long() if s.check() == z3.unsat else None
+        # first from the path condition alone (quantifier-free in most cases; a value fixed by a subset of the assumptions is fixed by all of them),
+        # then with the collected facts (callee postconditions, container axioms)
+        for with_facts in (False, True):
+            s = z3.Solver()
+            s.set("rlimit", 5_000_000)
+            s.add(*self.pc)
+            if with_facts:
+                s.add(*self.facts)
+            if s.check() != z3.sat:
+                continue
+            c = s.model().eval(v, model_completion=True)
+            if not z3.is_int_value(c) or not (-limit <= c.as_long() <= limit):
+                continue
+            s.add(v != c)
+            if s.check() == z3.unsat:
+                return c.as_long()
+        return None
 
     def decide(self, cond):
         if isinstance(cond, bool):
